@@ -19,9 +19,9 @@ from vplib.simlib import SimRunner, basic_problems, err_class
 
 MANIFEST = dict(
     category="proof",
-    text="Coq theorems on the protocol model M-Sys (coq/theories/sys/Proto.v), for every oracle: failure_local (a process-level error changes only the failed process and the processes that have it in `awaiting`; run queue and parked sets untouched), the error reaches an awaiter unchanged on every hop (check_completed_processes -> Environment -> Worker::notify_result; an awaiter registered after the failure is registered and answered in the same step), Worker::handle_command fails only on a client's ResumeProcess/GetResult misuse and Environment::handle_event never fails on routed process ids. PARTIAL: the global compositions awaiters_get_same_error and step_never_errs over whole schedules are stated in props/C15.v but not proved; they are checked on the real code by schedule exploration (failing member at 7 kinds of site, awaiters before/during/after, no panic / Err from Worker::step and Environment::step). The model is tied to the code by replaying qv_sim traces through the extracted model with the state compared after every scheduler action.",
+    text="Coq theorems on the protocol model M-Sys (coq/theories/sys/Proto.v), for every oracle: failure_local (a process-level error changes only the failed process and the processes that have it in `awaiting`; run queue and parked sets untouched), the error reaches an awaiter unchanged on every hop (check_completed_processes -> Environment -> Worker::notify_result; an awaiter registered after the failure is registered and answered in the same step; a failure of a process that is no longer awaited leaves the former awaiter untouched), Worker::handle_command fails only on a client's ResumeProcess/GetResult misuse and Environment::handle_event never fails on routed process ids. PARTIAL: the global compositions awaiters_get_same_error and step_never_errs over whole schedules are stated in props/C15.v but not proved; they are checked on the real code by schedule exploration (failing member at 7 kinds of site, awaiters before/during/after, no panic / Err from Worker::step and Environment::step). The model is tied to the code by replaying qv_sim traces through the extracted model with the state compared after every scheduler action.",
     design_ref="§4, §5 C15",
-    note="Trusted: Coq kernel, extraction (ExtrOcamlBasic), OCaml driver, the simulator and its backend (harness/src/bin/qv_sim), the trace-to-oracle conversion (vplib/simlib.py), the schedule abstraction of DESIGN §4. Debug build (debug assertions are outcomes). Effects/resources and the heap are outside M-Sys (C14, C06). Known finding F71.",
+    note="Trusted: Coq kernel, extraction (ExtrOcamlBasic), OCaml driver, the simulator and its backend (harness/src/bin/qv_sim), the trace-to-oracle conversion (vplib/simlib.py), the schedule abstraction of DESIGN §4. Debug build (debug assertions are outcomes). Effects/resources and the heap are outside M-Sys (C14, C06).",
     technique="Coq proof on a protocol model + model/code correspondence by trace replay + schedule exploration of the real runtime with implementation-level oracles",
 )
 
